@@ -8,9 +8,13 @@ import numpy as np
 
 from mc import harness, popgen, sim
 from mc.evidence import Partial, Reporter
-from _gettsim.functions_loader import load_aggregation_dict
+from _gettsim.functions_loader import load_aggregation_dict, load_and_check_functions
 from _gettsim.groupings import create_groupings
-from _gettsim.interface import FunctionsAndColumnsOverlapWarning, compute_taxes_and_transfers
+from _gettsim.interface import (
+    FunctionsAndColumnsOverlapWarning,
+    _round_and_partial_parameters_to_functions,
+    compute_taxes_and_transfers,
+)
 
 POP = ["couple_kids", "single_parent", "pensioners", "unemployed"]
 POP2 = ["patchwork", "parental_leave", "self_employed", "three_gen"]
@@ -85,25 +89,40 @@ def task(arg):
         if n in must_warn and not named:
             out.violation(f"override-not-announced:{n}", case, f"supplying {n} (a rule / grouping / aggregation) raised no FunctionsAndColumnsOverlapWarning naming it")
         out.outcome((n in f, named))
-        # a supplied column must be USED: for nodes that are not policy rules (no tripwire possible) supply marker values and read them back
-        if n not in f:
-            col = full[n].to_numpy()
-            if col.dtype.kind in "fiu" and not n.endswith("_id"):
-                marker = col + 1 if col.dtype.kind in "iu" else col + 1.0
-                d3 = df.copy()
-                d3[n] = marker
-                succ = [t for t in dag.successors(n)] if n in dag else []
-                tg = succ[:3] or [t for t in targets[:1]]
+        # a supplied column must be USED by its consumers: supply marker values (computed + 1) and re-evaluate every direct consumer on
+        # the columns of that run - it must have seen the marker, not a value computed internally
+        col = full[n].to_numpy()
+        if col.dtype.kind in "fiu" and not n.endswith("_id") and n in dag:
+            marker = col + 1 if col.dtype.kind in "iu" else col + 1.0
+            d3 = df.copy()
+            d3[n] = marker
+            succ = [t for t in dag.successors(n) if t in nodes][:4]
+            if succ:
                 try:
                     with warnings.catch_warnings():
                         warnings.simplefilter("ignore")
-                        dbg = compute_taxes_and_transfers(d3, p, f, targets=tg, debug=True)
+                        dbg = compute_taxes_and_transfers(d3, p, f, targets=succ, debug=True)
+                        fn3, _ = load_and_check_functions(f, succ, list(d3.columns), {}, {})
+                        proc = _round_and_partial_parameters_to_functions({c: fn3[c] for c in succ if c in fn3}, p, True)
                     out.step()
                     if n not in dbg.columns or not np.array_equal(dbg[n].to_numpy().astype(float), marker.astype(float)):
-                        out.violation(f"supplied-column-ignored:{n}", {**case, "marker": True},
-                                      f"{n} supplied with marker values on {date_iso}, but the debug output holds {dbg[n].tolist()[:4] if n in dbg.columns else 'nothing'}")
+                        out.violation(f"supplied-column-ignored:{n}", {**case, "marker": True}, f"{n} supplied with marker values on {date_iso} is not what the debug output holds")
+                    for c, fc in proc.items():
+                        args = [a for a in inspect.signature(fc).parameters]
+                        if not all(a in dbg.columns for a in args):
+                            continue
+                        with np.errstate(all="ignore"):
+                            want = np.asarray(fc(**{a: dbg[a].to_numpy() for a in args}))
+                        got = dbg[c].to_numpy()
+                        want = np.broadcast_to(want, got.shape)
+                        ok = sim.col_equal(got, want, ulps=2)
+                        if not ok.all():
+                            i = int(np.argmin(ok))
+                            out.violation(f"supplied-column-not-seen-by:{c}<-{n}", {**case, "consumer": c, "row": i},
+                                          f"{n} was supplied with marker values on {date_iso}; consumer {c} holds {got[i]!r}, but evaluated on the supplied column it is {want[i]!r}")
                 except Exception as e:  # noqa: BLE001
                     out.count("marker_runs_raising")
+                    out.setadd("marker_run_errors", f"{n}:{type(e).__name__}")
     out.sample({"date": date_iso, "households": names, "nodes": subset[:4]}, limit=1)
     return out.dump()
 
